@@ -299,6 +299,25 @@ impl Process {
         }
     }
 
+    /// Returns true if a new FD can be opened without exceeding the current
+    /// soft limit for `Resource::NOFILE`.
+    #[must_use]
+    pub fn has_unused_fd(&self) -> bool {
+        let limit = self
+            .resource_limits
+            .get(&Resource::NOFILE)
+            .map(|l| l.soft)
+            .unwrap_or(INFINITY);
+        let fd = min_unused_fd(Fd(0), self.fds.keys());
+        #[allow(
+            clippy::unnecessary_cast,
+            reason = "the types of FD and limit may vary across platforms"
+        )]
+        {
+            limit == INFINITY || (fd.0 as u64) < limit as u64
+        }
+    }
+
     /// Assigns a new FD to the given body.
     ///
     /// The new FD will be the minimum unused FD equal to or greater than
